@@ -108,6 +108,12 @@ def run_case(acc, cseed, spec, stack_holder):
             brothers.append(bl_)
         else:
             blocks.append(mk([17, 18, 19, 20]))
+    if nb >= 2 and rng.random() < 0.06:
+        # the same header twice in one request (each occurrence with the brothers the client
+        # listed for it): what the device makes of it is the device's business
+        i_, j_ = rng.sample(range(nb), 2)
+        blocks[j_] = blocks[i_]
+        acc.count("requests_holding_the_same_header_twice")
     for h in blocks + [x for bl in brothers for x in bl]:
         if len(pool) < 60:
             pool.append(h)
